@@ -254,6 +254,39 @@ def rule_WT2(ctx, tier):
     return rr
 
 
+_SINKS = ("extend", "extend_from_slice", "push", "append")
+_INTS = ("u8", "u16", "u32", "u64", "u128", "usize", "i8", "i16", "i32", "i64", "i128", "isize")
+_LENLIKE = ("len", "is_empty", "capacity")
+
+
+def _field_uses(term, body_id, calls=(), casts=()):
+    """(field, enclosing calls, enclosing cast targets) for every use of `self.<field>` in an origin term, ignoring
+    uses that only feed a length"""
+    if not isinstance(term, tuple) or not term:
+        return
+    k = term[0]
+    if k == "proj" and term[1] == ("param", body_id, 1) and term[2] and str(term[2][0]).startswith("f:"):
+        yield (term[2][0][2:], calls, casts)
+        return
+    if k == "call":
+        if term[1].split("::")[-1] in _LENLIKE:
+            return
+        for a in term[2]:
+            yield from _field_uses(a, body_id, calls + (term[1],), casts)
+        return
+    if k == "ret":
+        if term[1].split("::")[-1] in _LENLIKE:
+            return
+        yield from _field_uses(term[2], body_id, calls + (term[1],), casts)
+        return
+    if k == "cast":
+        yield from _field_uses(term[1], body_id, calls, casts + (str(term[2]),))
+        return
+    for x in term:
+        if isinstance(x, tuple):
+            yield from _field_uses(x, body_id, calls, casts)
+
+
 def rule_WT3(ctx, tier):
     rr = RuleResult("WT3", "signed byte layouts cover every field except the signature, each once, and determine the fields")
     P = ctx.prog
@@ -264,42 +297,48 @@ def rule_WT3(ctx, tier):
             rr.anchor_missing(ty + "::to_vec")
             continue
         fields = [(f["name"], f["ty"]) for f in adt["variants"][0]["fields"]]
-        reads = {}
-        for bb in b.rpo():
-            def walk(o):
-                if isinstance(o, dict):
-                    for k in ("c", "m", "p"):
-                        pl = o.get(k)
-                        if isinstance(pl, list) and pl and pl[0] == 1:
-                            for e in pl[1:]:
-                                if isinstance(e, str) and e.startswith("f:"):
-                                    reads[e[2:]] = reads.get(e[2:], 0) + 1
-                                    break
-                    for v in o.values():
-                        walk(v)
-                elif isinstance(o, list):
-                    for v in o:
-                        walk(v)
-            walk(b.blocks[bb])
+        # pieces appended to the returned buffer: the buffer's initial value plus the argument of every
+        # extend/extend_from_slice/push/append; a field read that only feeds a length (capacity hint) is not a piece
+        pieces, inits = [], []
+        for bb, t in b.calls():
+            if (call_target(t) or "").split("::")[-1] in _SINKS:
+                a0 = og.strip(arg_origin(ctx, b, bb, 0))
+                if a0 not in inits:
+                    inits.append(a0)
+                pieces.append(arg_origin(ctx, b, bb, 1))
+        if not pieces:
+            inits.append(ctx.og.local(b, 0))
+        pieces = inits + pieces
+        reads, enc = {}, {}
+        for pc in pieces:
+            seen_here = {}
+            for f, calls, casts in _field_uses(pc, b.id):
+                seen_here.setdefault(f, []).append((calls, casts))
+            for f, uses in seen_here.items():
+                reads[f] = reads.get(f, 0) + 1
+                enc.setdefault(f, []).extend(uses)
         want = [n for n, t in fields if n != "signature"]
         missing = [n for n in want if n not in reads]
         extra = [n for n in reads if n not in want]
         dup = [n for n in want if reads.get(n, 0) > 1]
         if not missing and not extra and not dup:
-            rr.ok("%s::to_vec reads %s once each" % (ty.split("::")[-1], want), sample={"rule": "WT3", "type": ty, "signed fields": want})
+            rr.ok("%s::to_vec appends %s once each" % (ty.split("::")[-1], want), sample={"rule": "WT3", "type": ty, "signed fields": want, "pieces": [og.show(x)[:80] for x in pieces]})
         else:
             rr.fail("signed-layout:%s" % ty.split("::")[-1], "`%s::to_vec` does not cover the fields exactly once: missing %s, unexpected %s, repeated %s — a receipt/appointment differing only there carries the same signature" % (ty.split("::")[-1], missing, extra, dup), where=b.span)
+        # fixed-width fields are serialised whole: to_be_bytes of the field's own type, no narrowing cast on the way
+        for n, t in fields:
+            if t in _INTS and n in enc:
+                good = [u for u in enc[n] if not u[1] and any(c.endswith("<impl %s>::to_be_bytes" % t) for c in u[0])]
+                if good and len(good) == len(enc[n]):
+                    rr.ok("%s.%s is signed as %s::to_be_bytes (no cast)" % (ty.split("::")[-1], n, t))
+                else:
+                    how = "; ".join("%s%s" % ("cast to %s, " % "/".join(u[1]) if u[1] else "", [c.split("::")[-1] for c in u[0]]) for u in enc[n])
+                    rr.fail("signed-int-encoding:%s.%s" % (ty.split("::")[-1], n), "`%s` (%s) is not signed through `%s::to_be_bytes` of the whole value (%s): two values that differ only in the dropped bits carry the same signature" % (n, t, t, how), where=b.span)
         var = [n for n, t in fields if n != "signature" and ("Vec<" in t or "String" in t)]
         if len(var) <= 1:
             rr.ok("%s: at most one variable-length component (%s)" % (ty.split("::")[-1], var))
         else:
             rr.fail("signed-ambiguous:%s" % ty.split("::")[-1], "several variable-length fields %s are concatenated without length prefixes" % var, where=b.span)
-        # fixed-width fields are serialised with a fixed-width big-endian encoding
-        for n, t in fields:
-            if t in ("u32", "u64", "u16"):
-                ok = any(any("to_be_bytes" in x for x in call_names(tt)) for bb, tt in b.calls())
-                if not ok:
-                    rr.fail("signed-int-encoding:%s" % ty.split("::")[-1], "integer fields are not serialised with to_be_bytes", where=b.span)
         for m in ("sign", "verify"):
             mb = P.bodies.get(ty + "::" + m)
             if mb is None:
